@@ -65,6 +65,7 @@ structure Obs where
   end_ : EndClass
   ops : Nat
   seqOk : Bool := true   -- the acquired ammo are the file's entries in cyclic order
+  seqTail : Bool := false -- … all but ONE, the item sent last (only reported by cells with an injected read fault)
   deriving Repr
 
 /-- `none` = unbounded -/
@@ -173,11 +174,18 @@ def Hits.any (h : Hits) : Bool := h.r || h.c || h.o
 /-- only the close failed: everything the provider had to deliver was delivered before -/
 def Hits.closeOnly (h : Hits) : Bool := h.c && !h.r && !h.o
 
+/-- in order — or, when a read of the ammo file failed and `Run` reported an error: in order but for the item sent last.
+(bufio.Scanner hands out the partial last line before it reports the read error; a truncated uri line is still a uri, the
+decoder delivers it and fails with the next read.  What is IN an ammo is decoding fidelity, C07; the count, the order of
+everything before it and the end of the run are this property's.) -/
+def faultSeqOk (h : Hits) (o : Obs) : Bool :=
+  o.seqOk || (o.seqTail && h.r && (o.run == .fault || o.run == .other))
+
 /-- the clauses for a cell with an injected fault; `fired` = a cancel from outside the consumers happened (ext / tcan) -/
 def faultHolds (c : Cell) (answersCanceled : Bool) (h : Hits) (fired : Bool) (o : Obs) : Bool :=
   if !h.any then (if fired then extHolds c answersCanceled fired o else holds c o)
   else
-    decide (o.delivered ≤ want c) && o.cut == decide (0 < c.cap ∧ c.cap ≤ o.delivered) && o.seqOk &&
+    decide (o.delivered ≤ want c) && o.cut == decide (0 < c.cap ∧ c.cap ≤ o.delivered) && faultSeqOk h o &&
     returnsOk o && (o.run == .nil || o.run == .canceled || o.run == .fault || (o.run == .other && (h.r || h.o))) &&
     (o.run != .canceled || o.cut || fired) && endOk o &&
     -- nil: the bound was reached (or a cancel stopped a provider that answers it with nil)
@@ -192,7 +200,7 @@ def faultJudge (c : Cell) (answersCanceled : Bool) (h : Hits) (fired : Bool) (o 
   if !h.any then (if fired then extJudge c answersCanceled fired o else judge c o)
   else if !decide (o.delivered ≤ want c) then s!"fail:count:delivered {o.delivered} after a fault, at most {want c} expected"
   else if o.cut != decide (0 < c.cap ∧ c.cap ≤ o.delivered) then "fail:driver:cut flag inconsistent"
-  else if !o.seqOk then "fail:order:the acquired ammo are not the entries of the file in cyclic order"
+  else if !faultSeqOk h o then "fail:order:the acquired ammo are not the entries of the file in cyclic order"
   else if !returnsOk o then
     (if o.end_ == .spinning then "fail:spin:Run never returns after an I/O fault, ammo file read in a loop" else "fail:hang:Run never returns after a fault")
   else if !(o.run == .nil || o.run == .canceled || o.run == .fault || (o.run == .other && (h.r || h.o))) then runErrMsg o
